@@ -26,6 +26,10 @@ func runC10(c *Ctx) {
 	R.Rule("C10.R4", "a style rule always carries a matcher: in stylePolicyBuilder.OnElements/OnElementsMatching/Globally every appended stylePolicy had handler, enum or regexp stored with a value known non-nil on that path, css.GetDefaultHandler(property) being the last resort")
 	R.Rule("C10.R5", "unknown properties are rejected: css.GetDefaultHandler returns a non-nil entry of defaultStyleHandlers or BaseHandler; BaseHandler returns false on every path; stringInSlice returns true only across an equality test of an element with the needle, and that test is case-insensitive (the value is lower-cased, the enum entries are stored as written)")
 	R.Rule("C10.R6", "kept declarations stay in parse order: the kept list is only appended to inside the declaration loop and no sorting/reordering call occurs in sanitizeStyles")
+	R.Rule("C10.R7", "no two keys of a rule table share one mutable entry: every map stored as a table entry is created by a make that is stored by exactly that one update and lies inside every loop containing the update")
+	sharedEntryRule(c, "C10.R7", styleTables, "a style rule registered later for one element is applied to the others too")
+	R.Rule("C10.R8", "one matcher per property: in the style builders a style rule value that is modified inside a loop is created in that loop, so the default handler chosen for one property is never carried over to the next")
+	freshRulePerIteration(c, "C10.R8")
 	R.Assume(TrustGo, "douceur ParseDeclarations is total and returns declarations in source order", "that the emitted original declaration means to a browser what the transformed copy the matcher saw means (CSS escapes/comments/!important) is NOT decided", "user-supplied handlers are pure")
 	F := model.FindFields(c.P)
 	c10Styles(c, F)
